@@ -24,8 +24,8 @@ Init == /\ l = 1 /\ buf = <<>> /\ off = 0 /\ mode = 0 /\ lt = NoTag
 
 \* hx = 1: the harness knows what the call has to return (the value it encoded before)
 HxOK(e)    == e.hx = 1 => (e.st = "ok" /\ e.val = e.x /\ e.vals = e.xs)
-DecOK(e)   == ExplainsDecode(buf, e.p, e.mode, e.op, e @@ [lt |-> lt], e) /\ (e.op # "NestedMsg" => HxOK(e))
-DecSame(e) == IF e.op \in {"Nested", "NestedMsg"} THEN TRUE
+DecOK(e)   == ExplainsDecode(buf, e.p, e.mode, e.op, e @@ [lt |-> lt], e) /\ (e.op \notin {"NestedMsg", "NestedBad"} => HxOK(e))
+DecSame(e) == IF e.op \in {"Nested", "NestedMsg", "NestedBad"} THEN TRUE
               ELSE LET m == ImplStep(buf, e.p, e.mode, e.op, e @@ [lt |-> lt]) IN
                    /\ m.st = e.st /\ m.off = e.off
                    /\ m.st = "ok" => (m.val = e.val /\ m.vals = e.vals)
